@@ -10,7 +10,8 @@ def contract():
     return Contract(
         Q,
         params={"cls": "cls", "gateway": GW, "message": MSG, "message_buffer": BUFT},
-        requires=[H("dispatched-as-internal", "message.command == 3")],
+        requires=[H("dispatched-as-internal", "message.command == 3"),
+                  H("wf/schema-follows-protocol", "gateway._message_schema.ctx_protocol == gateway._protocol")],
         # the id handed out: whatever key this path registered (independent of the allocation strategy)
         witness={"new_id": (TInt, "the_stored_key(gateway.nodes)")},
         fresh={"new_node": {"type": TObj("Node"), "is": "gateway.nodes[new_id]"},
